@@ -36,8 +36,8 @@ def lay_out(root: str, req: dict) -> None:
     for rel, text in req["files"].items():
         p = os.path.join(root, rel)
         os.makedirs(os.path.dirname(p), exist_ok=True)
-        with open(p, "w", encoding="utf-8", newline="") as f:
-            f.write(text)
+        with open(p, "wb") as f:
+            f.write(text.encode("utf-8", "surrogateescape"))
     if req.get("extras"):
         os.makedirs(os.path.join(root, "sub"), exist_ok=True)
         for rel, text in mutate.HELPER_FILES.items():
